@@ -117,7 +117,7 @@ def parse_cases(lines, tag="@@CASE "):
     return out
 
 
-CASE_GROUPS = ["unary", "unaryvec", "scale", "rotate", "euler", "quat", "rotaxis", "transform",
+CASE_GROUPS = ["unary", "unaryvec", "scale", "partial", "rotate", "euler", "quat", "rotaxis", "transform",
                "boostaxis", "binvec", "binnum", "boost", "pred"]
 
 
